@@ -2,9 +2,9 @@
    Only statements, closed by [exact lemma], with Print Assumptions beneath. *)
 From Coq Require Import String List NArith Bool.
 From J5V.lib Require Import Outcome.
-From J5V.model Require Import Conc ConcKey ConcSites ConcCorr ConcRace ConcStatement ConcState ConcRW ConcHB ConcProbe ConcCodec.
+From J5V.model Require Import Conc ConcKey ConcSites ConcCorr ConcRace ConcStatement ConcState ConcRW ConcHB ConcProbe ConcCodec ConcProperty.
 From J5V.gen Require ConcGen ConcStateGen.
-From J5V.proofs Require Import ConcProofs ConcLeafProofs ConcInvProofs ConcTermProofs ConcMainProofs ConcRetProofs ConcRaceProofs ConcFullProofs ConcKeyProofs ConcRWProofs ConcHBProofs ConcProbeProofs ConcCodecProofs.
+From J5V.proofs Require Import ConcProofs ConcLeafProofs ConcInvProofs ConcTermProofs ConcMainProofs ConcRetProofs ConcRaceProofs ConcFullProofs ConcKeyProofs ConcRWProofs ConcHBProofs ConcProbeProofs ConcCodecProofs ConcPropertyProofs.
 Import ListNotations.
 Local Open Scope N_scope.
 
@@ -583,20 +583,21 @@ Proof. exact probe_is_the_event_trace. Qed.
 Print Assumptions C10_probe_is_the_event_trace.
 
 (* ---- encode / decode on a shared cache: composed with the sequential codec models -------------- *)
-(* encode_call / decode_call (ConcCodec.v) = CodecEnc.encode / CodecDec.decode_bytes applied to the
+(* encode_call / decode_call / query_call (ConcCodec.v) = CodecEnc.encode / CodecDec.decode_bytes /
+   CodecDecQuery.decode_query applied to the
    schema environment reachable from the object the call was handed, in the heap AS IT IS WHEN THE WALK
    RUNS — any later point of any schedule, other goroutines building or rolling back.  For every
    universe, call list, schedule, continuation, depth, naming, per-descriptor schema function, message
    and document: the value is the one the same function yields on the type's own unfolding, which is
    the schema a call alone on a fresh cache returns (second theorem).  The step from the Go walk to
    "a function of these cells and the input" is the census (C10_lockfree_functions_write_nothing,
-   C10_codec_walk_reads_frozen) and the oracle; query-decode (CodecDecQuery) is the same congruence and
-   is not instantiated here. *)
+   C10_codec_walk_reads_frozen) and the oracle. *)
 Theorem C10_codec_calls_return_solo_results : forall nm denote fmt any orc K k g calls sched t n c later,
   calls_ok calls -> In (t, n, c) (rets Guarded k g calls sched) ->
   let h := heap (s_sh (run Guarded k g calls (sched ++ later))) in
   (forall m, encode_call nm denote fmt any K h c n m = encode_solo nm denote fmt any K g n m) /\
-  (forall doc, decode_call nm denote orc K h c n doc = decode_solo nm denote orc K g n doc).
+  (forall doc, decode_call nm denote orc K h c n doc = decode_solo nm denote orc K g n doc) /\
+  (forall kvs, query_call nm denote orc K h c n kvs = query_solo nm denote orc K g n kvs).
 Proof. exact codec_calls_are_solo. Qed.
 Print Assumptions C10_codec_calls_return_solo_results.
 
@@ -623,3 +624,16 @@ Example C10_guarded_encode_example :
   In (1%nat, 3, 2%nat) (rets Guarded 3 ex_w2_graph ex_w2_calls sched) /\
   encode_call ex_nm ex_denote ex_fmt ex_any 3 (heap (s_sh st)) 2%nat 3 ex_msg = Ok [123; 34; 114; 48; 34; 58; 123; 125; 125].
 Proof. exact guarded_encode_example. Qed.
+
+(* ---- the property as a whole ------------------------------------------------------------------ *)
+(* ConcProperty.C10_property pol d: "each call returns what it returns alone" over EVERY key function (type
+   sets in which two descriptors share a cache key included), the machine-level statement, and DRF against the
+   inductive happens-before.  REFUTED for the code as it is (treatment of a foreign hit and discipline both
+   computed from the regenerated tables), PROVED with the first clause restricted to injective keys. *)
+Theorem C10_full_refuted : ~ C10_property code_hitpol code_disc.
+Proof. exact property_refuted_for_code. Qed.
+Print Assumptions C10_full_refuted.
+
+Theorem C10_full_partial : C10_property_collision_free code_hitpol code_disc.
+Proof. exact property_collision_free_for_code. Qed.
+Print Assumptions C10_full_partial.
